@@ -11,6 +11,7 @@ mod pt;
 mod c01;
 mod c01x;
 mod c02;
+mod c04;
 mod c05x;
 mod c06;
 mod c06x;
@@ -89,6 +90,7 @@ fn main() {
         "C01" => c01::run(&cfg),
         "C02" => c02::run(&cfg),
         "C03" => histprops::c03(&cfg),
+        "C04" => c04::run(&cfg),
         "C05" => histprops::c05(&cfg),
         "C06" => c06::run(&cfg),
         _ => {
